@@ -164,9 +164,10 @@ theorem qT_step (db : DB) (s s1 : Sel) (j : String × List String) (T : String) 
           rcases ho with o | ⟨k, _, e, _⟩
           · rcases o with o | ⟨i, f, _, _, _, e⟩
             · exact o
-            · rcases e with e | e
+            · rcases e with e | e | ⟨e, _⟩
               · cases e
               · cases e; exact absurd rfl hne
+              · cases e
           · cases e; exact absurd rfl hne
 
 theorem qT_joins (db : DB) (T : String) : ∀ (js : List (String × List String)) (s s' : Sel),
